@@ -101,7 +101,7 @@ def parseSched (s : String) : Option (List SchedItem) :=
 
 /-! ### results -/
 
-inductive Res
+inductive DRes
   | int (i : Int)
   | nat (n : Nat)
   | bool (b : Bool)
@@ -112,7 +112,7 @@ inductive Res
   | unit
   | pair (a b : Nat)
 
-def Res.show : Res → String
+def DRes.show : DRes → String
   | .int i => toString i
   | .nat n => toString n
   | .bool b => showBool b
@@ -123,7 +123,7 @@ def Res.show : Res → String
   | .unit => "-"
   | .pair a b => s!"{a},{b}"
 
-def showOut (r : Except Err Res) : String :=
+def showOut (r : Except Err DRes) : String :=
   match r with
   | .ok v => "ok " ++ v.show
   | .error e => "err " ++ toString e
@@ -145,32 +145,32 @@ def showRoots (roots : List Int) : String :=
   "R=" ++ joinWith "," (rs.map fun u => s!"{u}>{u.natAbs}:{showBool (decide (u < 0))}")
 
 /-- run a model computation on manager `id` -/
-def runOn (ms : Mgrs) (id : Nat) (x : M Res) : Mgrs × Except Err Res :=
+def runOn (ms : Mgrs) (id : Nat) (x : M DRes) : Mgrs × Except Err DRes :=
   match ms[id]? with
   | none => (ms, .error .other)
   | some m =>
     let (r, m') := x m
     (ms.insert id m', r)
 
-def pureE (m : Mgr) (x : Except Err Res) : Except Err Res × Mgr := (x, m)
+def pureE (m : Mgr) (x : Except Err DRes) : Except Err DRes × Mgr := (x, m)
 
-def badArgs : Except Err Res := .error .other
+def badArgs : Except Err DRes := .error .other
 
 /-- `BDD(levels)` constructor -/
-def newMgr (levels : List (String × Int)) : Except Err Res × Mgr :=
+def newMgr (levels : List (String × Int)) : Except Err DRes × Mgr :=
   -- `_assert_valid_ordering`
   let n := levels.length
   let nums := levels.map (·.2)
   let okv := (List.range n).all (fun i => nums.contains (i : Int)) && nums.all (fun k => 0 ≤ k && k < n)
   if !okv then (.error .assertion, {}) else
-  let x : M Res := do
+  let x : M DRes := do
     for (v, l) in levels do
       let _ ← addVar v (some l)
     return .unit
   x {}
 
 /-- interpret one operation on one manager -/
-def stepMgr (op : String) (args : List String) : M Res := do
+def stepMgr (op : String) (args : List String) : M DRes := do
   let m ← M.get
   match op, args with
   | "declare", [names] => do declare (splitOn1 names ','); return .unit
@@ -411,7 +411,7 @@ def stepLine (ms : Mgrs) (line : String) : Mgrs × String :=
       | some src, some tgt =>
         let (r, tgt') := copyBdd src.tbl u { tgt with sched := sched }
         let left := !tgt'.sched.isEmpty && (match r with | .ok _ => true | .error _ => false)
-        (ms.insert dst { tgt' with sched := [] }, showOut (r.map Res.int) ++ (if left then " SCHED-LEFT" else ""))
+        (ms.insert dst { tgt' with sched := [] }, showOut (r.map DRes.int) ++ (if left then " SCHED-LEFT" else ""))
       | _, _ => (ms, "err BAD-MGR")
     | _, _, _ => (ms, "err BAD-LINE")
   | id :: op :: args =>
